@@ -74,6 +74,7 @@ type c20Actor struct {
 	dlCount  uint32
 	descs    []nasdesc.Msg
 	builders []int
+	deep     []byte     // the actor's deeply nested message (operation deeply-nested-decode), built at first use
 	own, rc  *rand.Rand // own PRNG; PRNG seeded identically in every goroutine (lock-step prefix)
 }
 
@@ -244,12 +245,15 @@ func c20NewActor(seed int64, g int) *c20Actor {
 
 // hot loops: windows of a few instructions (a cache line replaced between "is it mine?" and "use it") need of the order
 // of 10^5 overlapping calls of the SAME cheap operation; the mixed scripts give each kind a few hundred.
-var c20HotSets = [][]int{{6, 7}, {5}, {8}, {12}, {0, 1}, {3, 4}, {2, 11}}
+var c20HotSets = [][]int{{6, 7}, {5}, {8}, {12}, {0, 1}, {3, 4}, {2, 11}, {17}}
 
 func runC20Hot(c *fw.Case, set []int) (o fw.Outcome) {
 	G, iters := 8, 12000
 	if c.Thorough() {
 		iters = 120000
+	}
+	if len(set) == 1 && c20OpNames[set[0]] == "deeply-nested-decode" {
+		G, iters = 128, iters/16 // MANY decodes in flight at once (goroutines are cheap), each inside its value most of the time
 	}
 	heavy := false
 	for _, k := range set {
